@@ -13,6 +13,7 @@ import Proofs.C03Reject
 import Proofs.C03Cex
 import Proofs.C03Handshake
 import Proofs.C03HsCache
+import Proofs.C03Compress
 namespace C03
 open FrameSpec FrameWrite
 
@@ -390,6 +391,73 @@ theorem C03_cex_short_string_too_long (id : Bytes) (hn : 65535 < id.length) (hn2
     omega
   · exact h
 
+/-! ## compression on / off (the framing around the algorithm; the algorithms themselves are C18) -/
+
+/-- **C03_roundtrip_compressed.** With ANY compressor configured whose decompression undoes its
+    compression (and whose output for a frame-sized input fits the length field): for every version
+    1..5, tracing flag, in-range stream id and every expressible request of the eight kinds, the frame
+    the builder produces — header flag 0x01 set and the bytes after the header = Encode(custom payload ++
+    message body), length field = the compressed size; STARTUP and OPTIONS left uncompressed — is read
+    back by the compression-aware specification decoder as exactly the version, tracing flag, stream id
+    and request that was asked for, leaving exactly the bytes that follow. -/
+theorem C03_roundtrip_compressed (enc : Bytes → Bytes) (dec : Bytes → Option Bytes)
+    (hinv : ∀ b, dec (enc b) = some b)
+    (hsize : ∀ b, b.length ≤ maxFrameSize → (enc b).length < 2147483648)
+    (v : Nat) (tracing : Bool) (stream now : Int) (g : GReq) (bs rest : Bytes)
+    (hv1 : 1 ≤ v) (hv5 : v ≤ 5) (hs : StreamInRange v stream)
+    (hx : Expressible v (ask now g) = true)
+    (he : encodeReqC (some enc) v tracing stream now g = .ok bs) :
+    decodeReqC dec (bs ++ rest) = some ⟨v, tracing, stream, ask now g, rest⟩ := by
+  obtain ⟨full, he0, hsz, hbs⟩ := encodeReqC_some enc v tracing stream now g bs he
+  have hr := C03_roundtrip v tracing stream now g _ rest hv1 hv5 hs hx he0
+  obtain ⟨b0, b1, hfl1⟩ := headerFlags_even v tracing g
+  have hfl : headerFlags v tracing g < 256 := by omega
+  have hlen : full.length < 2147483648 := by unfold maxFrameSize at hsz; split at hsz <;> omega
+  rw [decodeReq_frame v _ stream _ full rest hv1 hv5 hs hfl (opcode_lt g) hlen] at hr
+  subst hbs
+  by_cases hc : compressible g = true
+  · simp only [hc, if_true]
+    have hlen' : (enc full).length < 2147483648 := hsize full (by split at hsz <;> omega)
+    rw [decodeReqC_frame dec v _ stream _ (enc full) rest hv1 hv5 hs hfl1 (opcode_lt g) hlen']
+    rw [if_pos b1, if_neg (opcode_compressible g hc), hinv]
+    simpa using hr
+  · have hc' : compressible g = false := by simpa using hc
+    simp only [hc', Bool.false_eq_true, if_false]
+    rw [decodeReqC_frame dec v _ stream _ full rest hv1 hv5 hs hfl (opcode_lt g) hlen]
+    simp only [b0, Bool.false_eq_true, if_false]
+    exact hr
+
+/-- **C03_compress_flag_iff.** Which frames carry the compression flag: exactly those built with a
+    compressor configured, other than STARTUP and OPTIONS — for every version, request and compressor. -/
+theorem C03_compress_flag_iff (comp : Option (Bytes → Bytes)) (v : Nat) (tracing : Bool) (stream now : Int) (g : GReq)
+    (bs : Bytes) (he : encodeReqC comp v tracing stream now g = .ok bs) :
+    ∃ a f r, bs = a :: f :: r ∧ (f.toNat % 2 = 1 ↔ (comp.isSome = true ∧ compressible g = true)) := by
+  obtain ⟨b0, b1, hfl1⟩ := headerFlags_even v tracing g
+  have hodd : (byteOf (headerFlags v tracing g + 1)).toNat % 2 = 1 := by
+    have : (byteOf (headerFlags v tracing g + 1)).toNat = headerFlags v tracing g + 1 := by
+      simp only [byteOf, UInt8.toNat_ofNat']; omega
+    rw [this]; simpa [bit] using b1
+  have heven : ¬ (byteOf (headerFlags v tracing g)).toNat % 2 = 1 := by
+    have : (byteOf (headerFlags v tracing g)).toNat = headerFlags v tracing g := by
+      simp only [byteOf, UInt8.toNat_ofNat']; omega
+    rw [this]; simpa [bit] using b0
+  cases comp with
+  | none =>
+    rw [encodeReqC_none] at he
+    obtain ⟨full, hbs⟩ := encodeReq_shape v tracing stream now g bs he
+    obtain ⟨r, hr⟩ := wHeader_shape v (headerFlags v tracing g) stream (opcode g) full.length full
+    exact ⟨_, _, r, by rw [hbs, hr], by simp [heven]⟩
+  | some enc =>
+    obtain ⟨full, _, _, hbs⟩ := encodeReqC_some enc v tracing stream now g bs he
+    by_cases hc : compressible g = true
+    · simp only [hc, if_true] at hbs
+      obtain ⟨r, hr⟩ := wHeader_shape v (headerFlags v tracing g + 1) stream (opcode g) (enc full).length (enc full)
+      exact ⟨_, _, r, by rw [hbs, hr], by simp [hodd, hc]⟩
+    · have hc' : compressible g = false := by simpa using hc
+      simp only [hc', Bool.false_eq_true, if_false] at hbs
+      obtain ⟨r, hr⟩ := wHeader_shape v (headerFlags v tracing g) stream (opcode g) full.length full
+      exact ⟨_, _, r, by rw [hbs, hr], by simp [heven, hc']⟩
+
 /-! ## map order -/
 
 /-- **C03_map_order_irrelevant.** The STARTUP options and the custom payload are Go maps, written
@@ -595,6 +663,22 @@ example : ∃ bs, encodeReq 4 true 32767 0 exRich = .ok bs ∧
 example : Rejectable 3 (ask 0 exRich) = true := by decide
 example : mapEquiv (Req.startup [([1], [2]), ([3], [4])]) (Req.startup [([3], [4]), ([1], [2])]) :=
   List.Perm.swap _ _ _
+
+
+/-! non-vacuity of the compression theorems: the toy algorithm of the harness (FrameWrite.toyEnc: marker byte,
+    every byte xor 0x5A) satisfies the hypotheses -/
+theorem toy_inv (b : Bytes) : toyDec (toyEnc b) = some b := by
+  simp only [toyEnc, toyDec, List.map_map, Option.some.injEq]
+  have : ((fun x : UInt8 => x ^^^ 0x5A) ∘ fun x => x ^^^ 0x5A) = id := by
+    funext x; simp [UInt8.xor_assoc]
+  rw [this, List.map_id]
+
+example : ∃ bs, encodeReqC (some toyEnc) 4 true 32767 0 exRich = .ok bs ∧
+    decodeReqC toyDec bs = some ⟨4, true, 32767, ask 0 exRich, []⟩ ∧ decodeReq bs = none := by
+  refine ⟨_, rfl, ?_, by decide⟩
+  have := C03_roundtrip_compressed toyEnc toyDec toy_inv (by intro b hb; simp [toyEnc]; unfold maxFrameSize at hb; omega)
+    4 true 32767 0 exRich _ [] (by omega) (by omega) ⟨by decide, by decide⟩ (by decide) rfl
+  simpa using this
 
 /-! non-vacuity of the handshake theorems: a v4 connection with a compressor the peer offers, a
     three-round authenticator whose token is `t` ++ the latest challenge, then USE, REGISTER,
